@@ -1545,6 +1545,11 @@ impl ProtocolState {
             return None;
         }
 
+        // a partially written operation (packet larger than the space service() was offered) must be continued
+        if self.current_operation.is_some() {
+            return Some(self.current_time);
+        }
+
         if !self.high_priority_operation_queue.is_empty() {
             return Some(self.current_time);
         }
